@@ -137,16 +137,20 @@ def apply(c, good):
 
 
 def run_util(a):
-    exe, d, cid, fname, data, args, script = a
+    exe, d, cid, fname, data, args, script = a[:7]
+    nofile = len(a) > 7 and a[7]
     wd = os.path.join(d, cid)
     os.makedirs(wd, exist_ok=True)
-    with open(os.path.join(wd, fname), "wb") as fh:
-        fh.write(data)
+    with open(os.path.join(wd, "in_q.txt"), "wb") as fh:
+        fh.write(b"serial input\n")
+    if not (nofile and fname.startswith("missing")):
+        with open(os.path.join(wd, fname), "wb") as fh:
+            fh.write(data)
     env = dict(os.environ)
     env["ASAN_OPTIONS"] = "detect_leaks=0:abort_on_error=0:exitcode=97:allocator_may_return_null=1"
     env["UBSAN_OPTIONS"] = "halt_on_error=1:exitcode=98"
     try:
-        p = subprocess.run([exe] + args + [fname], cwd=wd, env=env, input=script.encode(), stdout=subprocess.PIPE, stderr=subprocess.PIPE, timeout=15)
+        p = subprocess.run([exe] + args + ([] if (nofile and not fname.startswith("missing")) else [fname]), cwd=wd, env=env, input=script.encode(), stdout=subprocess.PIPE, stderr=subprocess.PIPE, timeout=15)
         rc, err, timed = p.returncode, p.stderr.decode("latin-1"), False
     except subprocess.TimeoutExpired:
         rc, err, timed = -999, "", True
@@ -176,7 +180,7 @@ def run(tier, seed):
     chk.add_tlc(g)
     fcases = C.parse_payload(g.lines, "CASE ")
     s = C.tlc("UtilSession", "gen_Session_%d.cfg" % (1 if tier == "quick" else 2), rd, workers=4, heap="4g",
-              prefixes=("CASE ", "ENDS "))
+              prefixes=("CASE ", "ENDS ", "CMDL "))
     chk.add_tlc(s)
     sessions = C.parse_payload(s.lines, "CASE ")
     ends = sorted(C.parse_payload(s.lines, "ENDS "), key=lambda x: json.dumps(x, sort_keys=True))
@@ -245,6 +249,23 @@ def run(tier, seed):
                                                   ("[" + "|".join(b[:10] for b in x["body"]) + ("]" if x["closed"] else "")) if "body" in x else "",
                                                   e["end"], "@" + cpu if cpu != "msp430" else ""), script[:3000])
         jobs.append((exe, wd, cid, "t.hex", good["hex"], ["-" + cpu], script))
+    # command lines: options with, without and with malformed arguments, in pairs, with and without a file
+    cmdl = []
+    for part in C.parse_payload(s.lines, "CMDL "):
+        cmdl += part
+    cmdl = sorted(cmdl, key=lambda x: json.dumps(x, sort_keys=True))
+    if len(cmdl) < 2000:
+        raise C.InfraError("only %d command lines" % len(cmdl))
+    singles = [x for x in cmdl if len(x["opts"]) == 1]
+    pairs = [x for x in cmdl if len(x["opts"]) == 2]
+    for i, cl in enumerate(singles + (pairs if tier == "thorough" else rnd.sample(pairs, 500))):
+        cid = "l%d" % i
+        args = [w for o in cl["opts"] for w in o]
+        fname = cl["file"]
+        data = good["hex"] if fname == "t.hex" else (good["bin"] if fname == "t.bin" else b"")
+        meta[cid] = ("cmdline:" + " ".join(o[0] + ("" if len(o) == 1 else "=" + ("bad" if o[1] == "zzz" else "arg")) for o in cl["opts"]) + (" +" + fname.split(".")[0].rstrip("_q") if fname else ""),
+                     " ".join(args + [fname]))
+        jobs.append((exe, wd, cid, fname or "unused.tmp", data, args, "quit\n", fname == "" or fname.startswith("missing")))
     events, details = [], {}
     with ThreadPoolExecutor(C.NCPU) as ex:
         for cid, ob, san in ex.map(run_util, jobs):
@@ -282,7 +303,7 @@ def run(tier, seed):
              "byte flips x 4 formats; UtilSession: every command x argument class (quick: 1 command; thorough: + 20,000 pairs), each one-command session also ended by "
              "exit and by end of input, 15 interactive asm bodies x 7 arguments x closed/unclosed x 3 endings; all cases "
              "non-trivial; distinct by case description",
-        traces_validated_against_impl=len(events) - len(canaries), file_cases=len(fcases), sessions=len(sessions), sessions_with_endings=len(ends),
+        traces_validated_against_impl=len(events) - len(canaries), file_cases=len(fcases), sessions=len(sessions), sessions_with_endings=len(ends), command_lines=len(singles) + (len(pairs) if tier == "thorough" else 500),
         canaries=dict(injected=len(canaries), rejected=len(canaries)), exhaustive=False))
     chk.samples = [meta[c][1][:200] for c in rnd.sample(sorted(meta), 4)]
     chk.assumptions = ["memory-safety oracle: AddressSanitizer + bounds build; 15 s timeout; sessions end with quit, exit or end of input; "
